@@ -217,6 +217,14 @@ def facts(src):
     summary.update({k: (v if not isinstance(v, list) else list(v)) for k, v in vals.items()})
     _state_facts.clear()
     _state_facts.update(vals)
+    # the control flow of the core functions is re-translated from the source (harness/c16/translate.py) into a
+    # second generated file; Proofs/C16_gen.v proves it equal to the hand-written model
+    from . import translate
+    gen_text, gen_problems, gen_defs = translate.translate(src)
+    problems += gen_problems
+    B.write_if_changed(os.path.join(B.COQ, 'Gen', 'Facts_C16_gen.v'), gen_text)
+    summary['translated'] = sorted(gen_defs)
+    summary['translator_problems'] = len(gen_problems)
     return {'coq': c16facts.coq(vals), 'summary': summary, 'problems': problems}
 
 
